@@ -131,3 +131,45 @@ K("fb.copy_from_f32_u16", ["C15", "C01"], "jxl-oxide", FB, FBM, "copy_from_f32_u
 K("fb.copy_from_f32_monotone", ["C15"], "jxl-oxide", FB, FBM, "copy_from_f32_monotone", "complete",
   ["<u8 as Sealed>::copy_from_f32", "<u16 as Sealed>::copy_from_f32", "<f32 as Sealed>::copy_from_f32"],
   "a <= b (non-NaN) => u8(a) <= u8(b) and u16(a) <= u16(b), all pairs of f32; f32 -> f32 is the bit identity")
+
+# ---- jxl-image/lib.rs ---------------------------------------------------------------------------------------------
+CANARIES["jxl-image"] = dict(anchor=IM, module=IMM, harness="canary", kind="complete", fns=[], timeout=60)
+K("im.apply_orientation", ["C15", "C14", "C01"], "jxl-image", IM, IMM, "apply_orientation_contract", "complete",
+  ["ImageMetadata::apply_orientation"],
+  "orientation 1..8, stored size 1..=i32::MAX, stored sample inside: (.., inverse=false) == (spec_oriented_dims, spec_orientation); displayed "
+  "position inside; (.., inverse=true) applied to the result returns the stored size and sample (round trip)")
+K("im.apply_orientation_inverse", ["C15", "C01"], "jxl-image", IM, IMM, "apply_orientation_inverse_contract", "complete",
+  ["ImageMetadata::apply_orientation"],
+  "for every displayed size and displayed position inside: the stored position returned by inverse=true lies inside the stored image and "
+  "spec_orientation maps it back to the displayed position")
+K("im.oriented_dims", ["C01", "C15", "C14"], "jxl-image", IM, IMM, "oriented_dims_contract", "complete",
+  ["ImageHeader::width_with_orientation", "ImageHeader::height_with_orientation", "ImageMetadata::apply_orientation"],
+  "for EVERY size a SizeHeader can encode (height 1..=2^30; width explicit 1..=2^30 or compute_default_width(ratio 1..7, height), i.e. up to 2^31) "
+  "and orientation 1..8: no panic and == spec_oriented_dims. Called by RenderContextBuilder::build and JxlImage::width()/height().")
+K("im.parse_integer_sample", ["C15", "C01"], "jxl-image", IM, IMM, "parse_integer_sample_contract", "complete",
+  ["BitDepth::parse_integer_sample"],
+  "IntegerSample with 1..=30 bits, every i32 sample: result == v / (2^bits - 1) (bit-exact f32 quotient), 0 -> 0.0, max -> 1.0 (bits <= 24)")
+K("im.parse_integer_sample_31", ["C01", "C15"], "jxl-image", IM, IMM, "parse_integer_sample_31_contract", "complete",
+  ["BitDepth::parse_integer_sample"],
+  "IntegerSample with 31 bits (accepted by BitDepth::parse): same contract, in particular no arithmetic overflow in a checked build")
+K("im.parse_float_sample_normal", ["C15", "C01"], "jxl-image", IM, IMM, "parse_float_sample_normal_contract", "complete",
+  ["BitDepth::parse_integer_sample"],
+  "FloatSample, every (bits, exp_bits) BitDepth::parse accepts, every sample whose exponent field is neither 0 nor all ones: bit-exact IEEE value")
+K("im.parse_float_sample_zero", ["C15"], "jxl-image", IM, IMM, "parse_float_sample_zero_contract", "complete",
+  ["BitDepth::parse_integer_sample"],
+  "FloatSample, exponent field 0 (zero and subnormals): IEEE value, in particular sample 0 -> 0.0")
+K("im.compute_default_width", ["C14", "C01"], "jxl-image", IM, IMM, "compute_default_width_contract", "complete",
+  ["SizeHeader::compute_default_width"],
+  "ratio 0..7, height <= 2^30: ratio 0 -> 8*w_div8, else floor(height*num/den) for 1:1, 12:10, 4:3, 3:2, 16:9, 5:4, 2:1; result fits u32")
+K("im.size_header_parse", ["C14", "C01"], "jxl-image", IM, IMM, "size_header_parse_contract",
+  "bounded:10 symbolic bytes from bit 0 (covers the longest form, 68 bits; every field value)", ["SizeHeader::parse"],
+  "height/width and the number of bits consumed equal an independent decoding of the standard's SizeHeader table over the same bytes", timeout=600)
+K("im.preview_header_parse", ["C14", "C01"], "jxl-image", IM, IMM, "preview_header_parse_contract",
+  "bounded:5 symbolic bytes from bit 0 (longest form 32 bits; every field value)", ["PreviewHeader::parse"],
+  "height/width and bit count equal the standard's PreviewHeader table: xsize_div8 / xsize are present only when ratio == 0", timeout=600)
+K("im.animation_header_parse", ["C14", "C01"], "jxl-image", IM, IMM, "animation_header_parse_contract",
+  "bounded:11 symbolic bytes from bit 0 (longest form 79 bits; every field value)", ["AnimationHeader::parse"],
+  "tps numerator/denominator, num_loops, have_timecodes and bit count equal the standard's AnimationHeader table", timeout=600)
+K("im.bit_depth_parse", ["C14", "C01"], "jxl-image", IM, IMM, "bit_depth_parse_contract",
+  "bounded:3 symbolic bytes from bit 0 (longest form 13 bits; every field value)", ["BitDepth::parse"],
+  "value and bit count equal the standard's BitDepth table; Ok exactly for integer bits <= 31 / float exp_bits 2..8 and mantissa 2..23", timeout=600)
